@@ -78,6 +78,60 @@ func runC14(c *Ctx) {
 		acqs += flows[f].Acqs
 	}
 	c.R.RequireMin("R14.1", "lock acquisitions in stringclassifier", acqs, 3)
+	// R14.8: no mutex is acquired again while it is already held by the same call chain. sync.RWMutex is not reentrant: a
+	// second RLock blocks behind a writer that is waiting for the first one to be released, and that writer never gets
+	// the lock - both calls hang.
+	{
+		acquires := map[*ssa.Function]map[string]bool{}
+		var acqOf func(f *ssa.Function, depth int) map[string]bool
+		acqOf = func(f *ssa.Function, depth int) map[string]bool {
+			if m, ok := acquires[f]; ok {
+				return m
+			}
+			m := map[string]bool{}
+			acquires[f] = m
+			if depth > 3 {
+				return m
+			}
+			for _, call := range core.CallsIn(f) {
+				if op, key := eng.MutexOp(f, call.Common()); (op == "Lock" || op == "RLock") && strings.Contains(key, ".") && !strings.HasPrefix(key, "local ") {
+					m[key] = true
+				}
+				if _, isGo := call.(*ssa.Go); isGo {
+					continue
+				}
+				if g := call.Common().StaticCallee(); g != nil && core.FuncPkgPath(g) == scPkg && g != f {
+					for k := range acqOf(g, depth+1) {
+						m[k] = true
+					}
+				}
+			}
+			return m
+		}
+		n8, bad := 0, 0
+		for _, f := range fns {
+			for _, call := range core.CallsIn(f) {
+				if _, isGo := call.(*ssa.Go); isGo {
+					continue
+				}
+				g := call.Common().StaticCallee()
+				if g == nil || core.FuncPkgPath(g) != scPkg || g == f {
+					continue
+				}
+				for key := range acqOf(g, 0) {
+					n8++
+					if h := flows[f].Held(call, key); h.Mode != 0 {
+						bad++
+						c.R.Fail("R14.8", core.ShortFn(f)+" calls "+g.Name()+" while holding "+key+", which "+g.Name()+" acquires again", p.Pos(call.Pos()),
+							"the mutex is not reentrant: if a writer asks for the lock between the two acquisitions, the second one waits behind the writer and the writer waits for the first to be released - the call never returns")
+					}
+				}
+			}
+		}
+		if bad == 0 {
+			c.R.OK("R14.8", "no mutex of the classifier is acquired again by a callee while the caller holds it", "-", fmt.Sprintf("%d (call site, mutex acquired by the callee) pairs examined", n8))
+		}
+	}
 	// roles: the guarded map is the only map field of Classifier, its guard the only (RW)Mutex field, the
 	// lazily initialised field the only *searchset.SearchSet field of the map's element type
 	clsT := p.Named(scPkg, "Classifier")
